@@ -13,6 +13,15 @@ times, otherwise the source changed shape and the check is INCONCLUSIVE rather t
   R4  `#[async_trait] impl<T> RaftLog for BufferedRaftLog<T>` -> inherent `impl<T> BufferedRaftLog<T>` (same bodies;
       native `async fn` instead of boxed futures)
   R5  the harness module is appended as a child module (so that it sees private fields and methods)
+  R6  de-sugaring of the caller-side async functions (append_entries, insert_batch, filter_out_conflicts_and_append,
+      purge_logs_up_to, flush, reset, reset_internal): `async fn` -> `fn`, `.await` -> `.shim_now()`.  `shim_now` is the
+      identity on plain values and, on a oneshot receiver, takes the reply that the model IO thread has already
+      sent (it panics -- fails the harness -- if the reply is not there).  Statement order and every other token are
+      unchanged; what is modelled away is suspension: the IO thread is infinitely fast (shim::mpsc::IO_AUTO_ACK).
+      Reason: Kani encodes a coroutine as a union of per-state structs; a future stored inside another future
+      loses constant propagation and one nested `append_entries(..).await` costs 3.6M SAT variables instead of 0.3M.
+      The IO-thread side (batch_processor, handle_non_write_cmd, close) keeps its async form.
+  R7  test-only helper methods are compiled out (see below)
 """
 import hashlib, json, os, re, sys
 REPO = os.environ.get("VERIF_REPO", "/repo")
@@ -51,10 +60,109 @@ if n4 != 1:
     fail("R4 (RaftLog impl header) did not match exactly once")
 if "async_trait" in txt:
     fail("async_trait still referenced after R4")
+# R7: test-only helper methods (`#[cfg(test)]` / `#[cfg(any(test, feature = "__test_support"))]`: len, is_empty, next_id) are
+# compiled out -- the native replay builds with cfg(test) and the helpers would clash with the trait methods that
+# R4 turned into inherent ones.
+txt, n7 = re.subn(r"#\[cfg\((test|any\(test, feature = \"__test_support\"\))\)\]", "#[cfg(any())]", txt)
+SYNC_FNS = ["append_entries", "insert_batch", "filter_out_conflicts_and_append", "purge_logs_up_to", "flush", "reset", "reset_internal"]
+n6 = {}
+for name in SYNC_FNS:
+    m = re.search(r"\basync fn " + name + r"\s*\(", txt)
+    if not m:
+        fail(f"R6: async fn {name} not found")
+    i = txt.index("{", m.end())
+    # skip a possible `-> Result<..>` containing no braces; find the body by brace matching
+    depth, j = 0, i
+    while True:
+        c = txt[j]
+        if c == "{":
+            depth += 1
+        elif c == "}":
+            depth -= 1
+            if depth == 0:
+                break
+        j += 1
+    body = txt[i:j + 1]
+    body2, k = re.subn(r"\.await\b", ".shim_now()", body)
+    if "async" in body2:
+        fail(f"R6: nested async block inside {name}")
+    txt = txt[:m.start()] + "fn " + name + "(" + txt[m.end():i] + body2 + txt[j + 1:]
+    n6[name] = k
 txt = ("// GENERATED by gen.py from /repo/" + REL + " (sha256 " + sha + ") -- do not edit\n"
        "#![allow(dead_code, unused_variables, unused_imports, unused_mut, clippy::all)]\n" + txt +
        "\n#[cfg(kani)]\n#[path = \"h_brl.rs\"]\npub mod h;\n")
 dst = os.path.join(HERE, "src", "gen_brl.rs")
 if not os.path.exists(dst) or open(dst).read() != txt:
     open(dst, "w").write(txt)
-print(json.dumps({"buffered_raft_log_sha256": sha, "rewrites": {"R1_imports": removed, "R2_paths": n2, "R3": n3, "R4": n4}}))
+# ---- harness wrappers: one #[kani::proof] per operation-shape sequence (tools/seqs.py)
+sys.path.insert(0, os.path.join(HERE, "..", "..", "tools"))
+import seqs
+hs = ["// GENERATED by gen.py from tools/seqs.py -- one proof harness per (concrete prefix, operation shape)\n"]
+for hd in seqs.all_harnesses():
+    pre = ""
+    if hd["prefix"]:
+        pre = f"    c_append(&log, &mut p, 1, &{hd['prefix']});\n"
+    hs.append(f"#[kani::proof]\n#[kani::unwind(2)]\npub fn {hd['name']}() {{\n    let (log, rx, mut p) = fresh_b({seqs.NB}, {seqs.TB});\n{pre}"
+              f"    apply(&log, &mut p, {seqs.SHAPES[hd['shape']]});\n"
+              f"    kani::cover!(true, \"operation_feasible\");\n    std::mem::forget(log);\n    std::mem::forget(rx);\n}}\n")
+seq_txt = "".join(hs)
+dst2 = os.path.join(HERE, "src", "gen_seq.rs")
+if not os.path.exists(dst2) or open(dst2).read() != seq_txt:
+    open(dst2, "w").write(seq_txt)
+# ---- function slice: LeaderState::calculate_new_commit_index (verbatim) + NodeRole discriminants from the generated proto
+LS = "d-engine-core/src/raft_role/leader_state.rs"
+lsrc = open(os.path.join(REPO, LS)).read()
+m = re.search(r"^    fn calculate_new_commit_index\(", lsrc, re.M)
+if not m:
+    fail("slice: fn calculate_new_commit_index not found in " + LS)
+i = lsrc.index("{", m.start())
+depth, j = 0, i
+while True:
+    c = lsrc[j]
+    if c == "{":
+        depth += 1
+    elif c == "}":
+        depth -= 1
+        if depth == 0:
+            break
+    j += 1
+fn_txt = lsrc[m.start():j + 1]
+PR = "d-engine-proto/src/generated/d_engine.common.rs"
+psrc = open(os.path.join(REPO, PR)).read()
+m2 = re.search(r"pub enum NodeRole \{([^}]*)\}", psrc)
+if not m2:
+    fail("slice: enum NodeRole not found in " + PR)
+leader_txt = ("// GENERATED by gen.py -- verbatim slice of " + LS + " (fn calculate_new_commit_index) + NodeRole from " + PR + "\n"
+              "#![allow(dead_code, unused_variables, clippy::all)]\nuse crate::lshim::*;\n"
+              "pub mod d_engine_proto {\n    pub mod common {\n        #[derive(Clone, Copy, Debug, PartialEq, Eq)]\n        #[repr(i32)]\n        pub enum NodeRole {" + m2.group(1) + "}\n    }\n}\n"
+              "impl<T: LCfg> LeaderSlice<T> {\n" + fn_txt + "\n}\n#[cfg(kani)]\n#[path = \"h_leader.rs\"]\npub mod h;\n")
+dst3 = os.path.join(HERE, "src", "gen_leader.rs")
+if not os.path.exists(dst3) or open(dst3).read() != leader_txt:
+    open(dst3, "w").write(leader_txt)
+leader_sha = hashlib.sha256(fn_txt.encode()).hexdigest()
+# ---- function slice: ReplicationHandler::retrieve_to_be_synced_logs_for_peers (verbatim)
+RH = "d-engine-core/src/replication/replication_handler.rs"
+rsrc = open(os.path.join(REPO, RH)).read()
+m = re.search(r"^    fn retrieve_to_be_synced_logs_for_peers\(", rsrc, re.M)
+if not m:
+    fail("slice: fn retrieve_to_be_synced_logs_for_peers not found in " + RH)
+i = rsrc.index("{", rsrc.index(")", m.start()))
+depth, j = 0, i
+while True:
+    c = rsrc[j]
+    if c == "{":
+        depth += 1
+    elif c == "}":
+        depth -= 1
+        if depth == 0:
+            break
+    j += 1
+rfn_txt = rsrc[m.start():j + 1]
+repl_txt = ("// GENERATED by gen.py -- verbatim slice of " + RH + " (fn retrieve_to_be_synced_logs_for_peers)\n"
+            "#![allow(dead_code, unused_variables, unused_mut, clippy::all)]\nuse crate::rshim::*;\n"
+            "impl<T: RCfg> ReplSlice<T> {\n" + rfn_txt + "\n}\n#[cfg(kani)]\n#[path = \"h_repl.rs\"]\npub mod h;\n")
+dst4 = os.path.join(HERE, "src", "gen_repl.rs")
+if not os.path.exists(dst4) or open(dst4).read() != repl_txt:
+    open(dst4, "w").write(repl_txt)
+repl_sha = hashlib.sha256(rfn_txt.encode()).hexdigest()
+print(json.dumps({"calculate_new_commit_index_sha256": leader_sha, "retrieve_to_be_synced_logs_for_peers_sha256": repl_sha, "buffered_raft_log_sha256": sha, "rewrites": {"R1_imports": removed, "R2_paths": n2, "R3": n3, "R4": n4, "R6_awaits": n6, "R7_test_helpers": n7}}))
